@@ -189,7 +189,7 @@ func VerifC03Reuse() {
 // participant was in another session before (its own, or B) — including the frame-scheduled traffic
 // (pose and component updates), which only flows if the connection's frame handler is registered with A.
 func VerifC03Switch() {
-	s := newStepWorld(stepShape{mods: vModVikja | vModOdal, preset: 0})
+	s := newStepWorld(stepShape{mods: vModVikja | vModOdal, preset: 0, noFree: true})
 	x := s.w.newConn()
 	prior := verifnd.Choice(3)
 	priorName := "none"
